@@ -55,7 +55,8 @@ RULE = ('cases: prog = header parameters (opcode_base 1..255 incl. <13, line_ran
         'decoded by a LineProgram built directly over a BytesIO with garbage before/after; unit = 1..4 complete units '
         '(versions 2-5, DWARF32/64, legacy tables or v5 entry formats over string/line_strp/strp/udata/data1-16/block) '
         'laid out in one .debug_line with gaps, parsed by DWARFInfo._parse_line_program_at_offset; cu = the same '
-        'through line_program_for_CU of synthesized units, repeated lookups through the cache; raw = random bytes '
+        'through line_program_for_CU of synthesized units (each lookup followed by get_entries), repeated lookups of '
+        'one table through the cache from units of the same and of different DWARF versions, in any order; raw = random bytes '
         '(model vs implementation only, out of domain); real = the line tables of 54 real objects (18 gcc/gas and '
         'clang builds over -gdwarf-2..5, -gdwarf64, -m32, -O0..2; every linked ELF file of the library test '
         'directories incl. ARM, MIPS, SPARC, TI and Solaris producers) against the rows, include directories and '
@@ -330,9 +331,14 @@ def gen(ctx):
             lookups = None
             if kind == 'cu':
                 # which unit each CU points at (None = no DW_AT_stmt_list); repeated lookups hit the cache
-                lookups = [rng.choice([None] + list(range(len(units))) * 3) for _ in range(rng.randint(1, 5))]
+                lookups = [rng.choice([None] + list(range(len(units))) * 3) for _ in range(rng.randint(1, 6))]
                 lookups = [-1 if x is None else x for x in lookups]
-            cases.append((kind, [le, k, line_str, strsec, units, _garbage(rng, rng.choice([0, 4])), lookups]))
+                # the DWARF version of each looking-up unit: several units (of different versions, hence with
+                # different DWARFStructs objects) may designate the same table; the program does not depend on it
+                cuvers = [rng.choice([2, 3, 4, 5]) if x < 0 or rng.random() < 0.6 else units[x][0][1] for x in lookups]
+            else:
+                cuvers = None
+            cases.append((kind, [le, k, line_str, strsec, units, _garbage(rng, rng.choice([0, 4])), lookups, cuvers]))
     return cases
 
 
@@ -550,7 +556,7 @@ def evaluate(ctx, cases):
             req3.append(['model_units', secs, [[[le, u[1], u[2]], u[0]] for u in units]])
             tags3.append(ci)
         else:
-            le, k, line_str, strsec, units, trail, lookups = a
+            le, k, line_str, strsec, units, trail, lookups = a[:7]
             line, offs = b'', []
             for ui, (hdr, prog, gap) in enumerate(units):
                 line += gap
@@ -631,7 +637,8 @@ def evaluate(ctx, cases):
             # everything else the library reports (all header fields, extent): implementation vs model
             ctx.record('real-view', a, impl=impl, spec=model, model=model, in_domain=False, nontrivial=False)
         else:
-            le, k, line_str, strsec, units, trail, lookups = a
+            le, k, line_str, strsec, units, trail, lookups = a[:7]
+            cuvers = a[7] if len(a) > 7 and a[7] is not None else None
             line, offs = built[ci]
             wf = all(bool(info[(ci, ui, 'wfh')]) and bool(info[(ci, ui, 'wf')]) for ui in range(len(units)))
             exp = []
@@ -654,8 +661,8 @@ def evaluate(ctx, cases):
                             return ['ok', [_view(lp), _decoded(lp, len(line))]]
                         out.append(impl_call(one))
                 else:
-                    cus = [(units[x][0][1], units[x][0][0], units[x][0][2], offs[x]) if x >= 0
-                           else (4, False, 4, None) for x in lookups]
+                    cus = [((cuvers[j] if cuvers else units[x][0][1]), units[x][0][0], units[x][0][2], offs[x]) if x >= 0
+                           else ((cuvers[j] if cuvers else 4), False, 4, None) for j, x in enumerate(lookups)]
                     dinfo, dabbrev = _build_cus(le, cus)
                     di = _dwarfinfo(le, line, line_str, strsec, dinfo, dabbrev)
                     for cu in di.iter_CUs():
@@ -668,6 +675,13 @@ def evaluate(ctx, cases):
                 return out
             impl = impl_call(run)
             ctx.bump('units', len(units))
+            if kind == 'cu' and cuvers:
+                shared = {}
+                for x, v in zip(lookups, cuvers):
+                    if x >= 0:
+                        shared.setdefault(x, set()).add(v)
+                ctx.bump('cu_sharing_a_table', 'different-versions' if any(len(v) > 1 for v in shared.values())
+                         else 'same-or-single')
             for u in units:
                 ctx.bump('version', u[0][1])
                 ctx.bump('format', 64 if u[0][0] else 32)
